@@ -216,7 +216,9 @@ func (m *VM) step(i int, op *Op) *Rec {
 			rnd := NewSimRand(op.Ent)
 			rd := callerReader(rnd, op.Ent)
 			var bld biscuit.Builder
-			if op.RootID != nil {
+			if op.RootID != nil && i%2 == 0 { // options in either order
+				bld = biscuit.NewBuilder(k.Priv, biscuit.WithRootKeyID(*op.RootID), biscuit.WithRNG(rd))
+			} else if op.RootID != nil {
 				bld = biscuit.NewBuilder(k.Priv, biscuit.WithRNG(rd), biscuit.WithRootKeyID(*op.RootID))
 			} else if rd == nil && i%2 == 0 {
 				bld = biscuit.NewBuilder(k.Priv)
@@ -294,9 +296,14 @@ func (m *VM) step(i int, op *Op) *Rec {
 			} else {
 				var bld biscuit.Builder
 				switch {
+				case len(op.Base) > 0 && op.RootID != nil && i%2 == 0: // options in another order
+					st := datalog.SymbolTable(append([]string{}, op.Base...))
+					bld = biscuit.NewBuilder(k.Priv, biscuit.WithSymbols(&st), biscuit.WithRootKeyID(*op.RootID), biscuit.WithRNG(rd))
 				case len(op.Base) > 0 && op.RootID != nil:
 					st := datalog.SymbolTable(append([]string{}, op.Base...))
 					bld = biscuit.NewBuilder(k.Priv, biscuit.WithRNG(rd), biscuit.WithRootKeyID(*op.RootID), biscuit.WithSymbols(&st))
+				case op.RootID != nil && i%2 == 0:
+					bld = biscuit.NewBuilder(k.Priv, biscuit.WithRootKeyID(*op.RootID), biscuit.WithRNG(rd))
 				case len(op.Base) > 0:
 					st := datalog.SymbolTable(append([]string{}, op.Base...))
 					bld = biscuit.NewBuilder(k.Priv, biscuit.WithRNG(rd), biscuit.WithSymbols(&st))
@@ -933,8 +940,13 @@ func (m *VM) doVerify(rec *Rec, op *Op, t *TokObj) {
 		addAuthz(a, op.Az, op.Perm, op.Has("permute-checks"))
 	}
 	if op.Has("query-before") {
+		// the verifier looks at its own configuration before it authorizes
+		m.Probe("query_before_authorize")
 		for _, q := range op.Qs {
 			queryRec(a, q)
+		}
+		if len(op.Qs) == 0 {
+			queryRec(a, ref.Rule{Head: ref.Pred{Name: "inspect", Terms: []ref.Term{ref.Var("x")}}, Body: []ref.Pred{{Name: "inspect_nothing", Terms: []ref.Term{ref.Var("x")}}}})
 		}
 	}
 	if op.Has("noauth") {
